@@ -171,6 +171,8 @@ def judgeReload : Judge := liftJudge fun input obs => do
   let mut expected : Array Json := #[]
   let mut idx : Nat := 0
   let mut sinceReload : Nat := 0
+  let cacheOn := match cfg0.getObjVal? "cache" with | .ok (.obj _) => true | _ => false
+  let mut allBad := true
   for (stJ, obJ) in steps.toList.zip obsSteps.toList do
     match stJ.getObjVal? "reload" with
     | .ok (.obj o) =>
@@ -190,6 +192,16 @@ def judgeReload : Judge := liftJudge fun input obs => do
       let sc := parseScenario (stJ.setObjVal! "cfg" cfg)
       let v ← judgeScenario sc obJ
       sinceReload := sinceReload + 1
+      -- memoryCache histories: while every backend answer so far (and this one) is rejected by the response limit in
+      -- force, the cache cannot hold an admissible entry, so a non-5xx answer given without contacting the backend can
+      -- only be a rejected response that was stored ("never delivered to the client")
+      let bad := v.tags.contains "resp-over" || v.tags.contains "resp-short"
+      if cacheOn && allBad && bad && sig == "" && v.tags.contains "backend-not-contacted"
+          && !(v.tags.any fun t => t.startsWith "client-status:5" || t == "client-status:413" || t == "client-status:400") then
+        sig := "reload:cache:rejected-response-served-from-cache"
+        note := s!"step {idx}: answered without contacting the backend although every backend answer of this history exceeds the response limit"
+      if !bad then allBad := false
+      if cacheOn then tags := tags ++ ["memory-cache"]
       expected := expected.push (Json.mkObj [("step", idx), ("pathMax", Json.num pathMax), ("serverMax", Json.num serverMax), ("model", v.expected)])
       if !v.agree then
         agree := false
